@@ -323,14 +323,17 @@ def _close(a: Fraction, b: Fraction) -> bool:
     return a == b or abs(float(a) - float(b)) <= 1e-9 * max(abs(float(a)), abs(float(b)))
 
 
-def _name_guard(st: ast.AST) -> Optional[str]:
-    p = parent(st)
+def _name_guard(node: ast.AST) -> Optional[str]:
+    """The parameter Name tested by an enclosing `if <x>.Name == '...'` whose body contains the node."""
+    cur = node
+    p = parent(node)
     while p is not None and not isinstance(p, ast.FunctionDef):
-        if isinstance(p, ast.If):
+        if isinstance(p, ast.If) and any(cur is b or any(x is cur for x in ast.walk(b)) for b in p.body):
             for c in ast.walk(p.test):
                 if isinstance(c, ast.Compare) and len(c.ops) == 1 and isinstance(c.ops[0], ast.Eq) and norm(c.left).endswith('.Name') \
-                        and isinstance(c.comparators[0], ast.Constant) and any(x is st for b in [p.body] for s in b for x in ast.walk(s)):
+                        and isinstance(c.comparators[0], ast.Constant):
                     return c.comparators[0].value
+        cur = p
         p = parent(p)
     return None
 
@@ -657,6 +660,10 @@ def check_u14(ctx, rule: str = 'U14', only_classes=None) -> int:
             if not obj:
                 continue
             d = res.decl(obj + '.value')
+            if d is None and obj.split('.')[0] in ('ParameterToModify', 'param'):
+                nm = _name_guard(c)          # generic reader object: identified by the `.Name == '...'` guard around the call
+                if nm and cls:
+                    d = next((x for x in get_registry(repo).class_decls(cls) if x.name == nm), None)
             if d is None or not d.is_input:
                 continue
             ut = d.get('UnitType')
